@@ -292,6 +292,9 @@ pub struct System {
     pub hist: HCfg,
     /// (src, dst, tag) initially in the network
     pub init_net: Vec<(u8, u8, u8)>,
+    /// configure the crash budget before adding the actors (builder calls commute)
+    #[serde(default)]
+    pub crashes_first: bool,
 }
 
 #[derive(Clone, Debug)]
@@ -417,5 +420,6 @@ pub fn gen_system(rng: &mut Rng, g: &SysGen) -> System {
         max_crashes: if g.max_crashes == 0 { 0 } else { rng.usize_below(g.max_crashes + 1) },
         hist: HCfg { rec_in: rng.below(3) as u8, rec_out: rng.below(3) as u8, cap: 24 },
         init_net,
+        crashes_first: rng.chance(1, 3),
     }
 }
